@@ -394,13 +394,15 @@ class FunctionReference:
         )
         if version is not None:
             qualified_name += "#" + version
-        if cluster_name is not None and "::" not in qualified_name:
+        # (the version may contain "::" itself: only the part before it can carry the cluster)
+        # (a version may contain "::" itself: only the part before "#" can carry the cluster)
+        if cluster_name is not None and "::" not in qualified_name.split("#", 1)[0]:
             qualified_name = cluster_name + "::" + qualified_name
         self._qualified_name = qualified_name
 
         self._qualified_name_without_cluster = (
             self.qualified_name
-            if "::" not in self.qualified_name
+            if "::" not in self.qualified_name.split("#", 1)[0]
             else self.qualified_name[self.qualified_name.find("::") + 2 :]
         )
 
